@@ -1,7 +1,15 @@
 (* P_GenVctx.v — validationContext / validateElementSignature as translated from /repo on this run: every signature check
    is made with a context built for that call from the CONFIGURED certificate store and the SP's INJECTED clock (and
-   goxmldsig's default ID attribute); nothing is cached, nothing else is consulted; no panic. *)
-From V Require Import Base Time Xml Types Generated GenPrelude GenPreludeV GenVctx.
+   goxmldsig's default ID attribute); nothing is cached, nothing else is consulted; no panic.
+
+   validateElementSignature (repaired, 541e863): goxmldsig's answer, except that ErrMissingSignature on an element that
+   envelops a ds:Signature child (etreeutils.NSFindOneChild, modelled in Ns.v) is dsig.ErrInvalidSignature, and a failing
+   child lookup is returned as the error.  [ves_res] is that function in the result shape of the Go code;
+   [source_validateElementSignature_is_tree_model] shows that, seen through the three outcomes the callers distinguish
+   (verified element / missing signature / any other error), it is Response.validate_element_signature — the function the
+   tree-level model and the translated entry points (GenTree.v: ves_call) use for the Response root and both logout roots. *)
+From V Require Import Base Time Xml Ns Types Generated Response GenPrelude GenPreludeV GenVctx.
+Local Open Scope string_scope.
 
 Definition configured_vctx (sp : vsp) : vctx :=
   {| vc_store := vs_store sp; vc_id_attribute := "ID"; vc_clock := vs_clock sp |}.
@@ -9,6 +17,65 @@ Definition configured_vctx (sp : vsp) : vctx :=
 Theorem G_validationContext_is_model sp now : G_validationContext sp now = PVal (Some (configured_vctx sp)).
 Proof. reflexivity. Qed.
 
+(* the body of validateElementSignature over goxmldsig's Validate with the context already fixed *)
+Definition ves_res (validate : node -> res node) (el : node) : res (option node) :=
+  match validate el with
+  | Ok v => Ok (Some v)
+  | Err EMissingSignature =>
+      match ns_find_one_child el ds_ns ds_signature_tag with
+      | Err e => Err e
+      | Ok (Some _) => Err (EOther "Invalid Signature")
+      | Ok None => Err EMissingSignature
+      end
+  | Err e => Err e
+  end.
+
 Theorem G_validateElementSignature_is_model validate sp now el :
-  G_validateElementSignature validate sp now el = PVal (res_some (validate (configured_vctx sp) el)).
-Proof. reflexivity. Qed.
+  G_validateElementSignature validate sp now el = PVal (ves_res (validate (configured_vctx sp)) el).
+Proof.
+  unfold G_validateElementSignature, ves_res. rewrite G_validationContext_is_model. unfold vctx_validate.
+  destruct (validate (configured_vctx sp) el) as [v|e]; [reflexivity|].
+  destruct e; try reflexivity.
+  cbn [res_some err_of_res ptr_of_res is_missing_signature run_fn bindc].
+  destruct (ns_find_one_child el ds_ns ds_signature_tag) as [[s|]|e]; reflexivity.
+Qed.
+
+(* ---- the three outcomes the callers of validateElementSignature distinguish ---- *)
+Definition dsig_of_res (r : res (option node)) : dsig_result :=
+  match r with
+  | Ok (Some v) => DOk v
+  | Ok None => DErr
+  | Err EMissingSignature => DMissing
+  | Err _ => DErr
+  end.
+
+Lemma find_child_loop_err c ns tag ks i lim e :
+  find_child_loop c ns tag ks i lim = Err e -> exists w, e = EOther w.
+Proof.
+  revert i lim. induction ks as [|k r IH]; intros i lim H; cbn [find_child_loop] in H; [discriminate|].
+  destruct k as [sp tg attrs kk| | | | ]; try (eapply IH; exact H).
+  destruct lim as [|lim']; [inversion H; eexists; reflexivity|].
+  unfold sub_ctx in H. destruct (sub_context c attrs) as [c2|e2]; cbn [bind] in H; [|inversion H; eexists; reflexivity].
+  destruct (lookup_prefix c2 sp) as [n|]; [|inversion H; eexists; reflexivity].
+  destruct ((n =?s ns) && (tg =?s tag))%bool; [discriminate|]. eapply IH; exact H.
+Qed.
+
+Lemma ns_find_one_child_err el ns tag e : ns_find_one_child el ns tag = Err e -> exists w, e = EOther w.
+Proof.
+  unfold ns_find_one_child, find_one_child, sub_ctx. intros H.
+  destruct (sub_context default_ctx (attrs_of el)) as [c|e2]; cbn [bind] in H; [|inversion H; eexists; reflexivity].
+  destruct (find_child_loop c ns tag (kids_of el) 0 traversal_limit) as [r|e3] eqn:EF; cbn [bind] in H; [discriminate|].
+  inversion H; subst. eapply find_child_loop_err; exact EF.
+Qed.
+
+Theorem source_validateElementSignature_is_tree_model validate sp now el :
+  exists r, G_validateElementSignature validate sp now el = PVal r /\
+    dsig_of_res r = validate_element_signature (fun x => dsig_of_res (res_some (validate (configured_vctx sp) x))) el.
+Proof.
+  exists (ves_res (validate (configured_vctx sp)) el). split; [apply G_validateElementSignature_is_model|].
+  unfold ves_res, validate_element_signature.
+  destruct (validate (configured_vctx sp) el) as [v|e]; [reflexivity|].
+  destruct e; try reflexivity. cbn [res_some dsig_of_res].
+  destruct (ns_find_one_child el ds_ns ds_signature_tag) as [[s|]|e] eqn:EF; try reflexivity.
+  apply ns_find_one_child_err in EF as (w & ->). reflexivity.
+Qed.
